@@ -30,6 +30,7 @@ structure Seg (α : Type) where
   py : α
   qx : α
   qy : α
+  deriving DecidableEq
 
 /-- consecutive segments of a polyline given by its vertices -/
 def segs {α} : List (α × α) → List (Seg α)
@@ -165,6 +166,7 @@ structure DesignSetup (α : Type) where
   steps : List α
   ylo : α
   yhi : α
+  deriving DecidableEq
 
 def designSetup (tenth small : α) (ofNat : Nat → α) (coords : List (α × α)) (spec : StepSpec α)
     (swap : Bool) : Option (DesignSetup α) :=
